@@ -33,7 +33,8 @@ RULE = ("STRUCTURED: districts grown to a prescribed IDENTIFY recursion depth 0-
         "sampled) linear extensions; direct calls of the five c-factor routines on V, ancestral sets and the recursion's "
         "own (A, Q[A]) for every district, every expression form and orders chosen among all linear extensions (one "
         "putting a variable outside the district last); every single-world probability P_w(T u E | Z) over small graphs "
-        "as candidate Q[T] (kept when it denotes Q[T]).  RANDOM: ADMGs with 1-7 nodes (evaluated on SCMs up to 5 nodes in the quick tier, 6 in the thorough tier); every "
+        "as candidate Q[T] (kept when it denotes Q[T]); the same with starred (+X) subscripts / parents / extra children and "
+        "names outside the graph (stream starP, correspondence only).  RANDOM: ADMGs with 1-7 nodes (evaluated on SCMs up to 5 nodes in the quick tier, 6 in the thorough tier); every "
         "district T; every C subset of T inducing a single district (sampled when there are many); 1-3 random linear "
         "extensions (optionally with extra names the graph does not contain); Q[T] given as a Probability P(T|Z) / "
         "population-tagged PP(T|Z) when T is a block of some topological order (Lemma-1 branch), in interventional form "
@@ -50,14 +51,14 @@ RULE = ("STRUCTURED: districts grown to a prescribed IDENTIFY recursion depth 0-
 ASSUMPTIONS = [
     "all theorems are about the Lean model Y0.Model.Tian / Y0.Model.TianDsl (tian_id.py after fix 010d659); the tie to the Python is this run's correspondence sampling (structural comparison up to set / multiset order and x*1, x/1; evaluation fall-back on a shared model otherwise)",
     "model class of the theorems and of the oracle: discrete variables, positive rational parameters, independent root latents shared only across bidirected edges (Y0/Spec/Scm.lean); a population tag reads the same single-domain model; G acyclic (MG.Ranked) and well formed (MG.WF)",
-    "tian_sound / cfactor_lemma1_sound / cfactor_sound carry the hypothesis ProbShape when Q[T] (Q[H]) is given as a bare Probability: it must be P_w(T u E | Z) - every member of T a child, further children E redundant (E inside Z u w), all variables in one un-starred world w, and Z, w disjoint from T (Y0/Spec/TianSpec.lean; weakened in round 2: redundant children allowed, Z and w need not be nodes). The Lemma-1 branch dispatches on the TYPE of the expression and reads only the parents and the children named in T, so a Probability that equals Q[T] only by numerical coincidence in one model is outside the theorem. cfactor_output_shape + tian_sound_ctftr_caller show that the only caller inside y0 (transport_district_intervening_on_parents) always supplies the shape: its Q[T] is the output of compute_c_factor. The version with the hypothesis quantified over all compatible models instead of ProbShape is OPEN (see the OPEN block in Props/C17.lean: believed true for the single-world environment M.env G; the harness generator semP enumerates every single-world Probability over small graphs, keeps those that denote Q[T] and checks IDENTIFY on them on every run). Sum / Product / Fraction inputs carry no such hypothesis",
-    "starred variables / starred intervention subscripts (+X, counterfactual values) inside a Probability given as Q[T] are outside ProbShape (the spelling -X in event position is inside); the harness does not generate either",
+    "a bare Probability given as Q[T] (Q[H]): tian_sound / cfactor_lemma1_sound / cfactor_sound (hypothesis 'denotes Q[T]' in ONE model) carry the syntactic hypothesis ProbShape, tian_sound_in the weaker ProbShapeIn (only the occurrences of the members of T are constrained: un-starred children, not parents, not intervened on; one common subscript list w; further children are parents / intervened on / not nodes; starred subscripts, starred parents and starred redundant children allowed) - Y0/Spec/TianSpec.lean. The Lemma-1 branch dispatches on the TYPE of the expression and reads only the parents and the children named in T, so a Probability that equals Q[T] only by numerical coincidence in one model is outside any such theorem. tian_sound_semantic / cfactor_sound_semantic / cfactor_lemma1_sound_semantic carry NO syntactic hypothesis: the hypothesis is 'q denotes Q[T] in EVERY positive model compatible with G' (at one fixed reading sigma' of the starred values, every sigma) and the conclusion holds in every such model; tian_semantic_shape proves that this hypothesis forces ProbShapeIn (separating models: independent fair coins and the same with one coin biased, Y0/Lemmas/TianSemSep.lean). 'Denotes' is relative to the single-world environment M.env G of Y0/Spec/Scm.lean, in which a conjunction across worlds has probability 0. cfactor_output_shape + tian_sound_ctftr_caller show that the only caller inside y0 (transport_district_intervening_on_parents) always supplies ProbShape. Sum / Product / Fraction inputs need one model and no shape",
+    "starred variables / starred intervention subscripts (+X) and names that are not nodes of the graph inside a Probability given as Q[T] are covered by tian_sound_in / tian_sound_semantic; the harness compares the real code with the model on such inputs (stream starP) but its exact evaluator does not read starred values, so on them the tie is correspondence only",
     "completeness ('None only when Q[C] is not identifiable from Q[T]') is not part of the property and not claimed",
     "set iteration order (frozenset of Variables) only affects the order of factors in a Product and of parents in a population-tagged Probability; both are compared as multisets / sets; Python's sorted() ties are modelled by a stable insertion sort",
     "graphs whose exact evaluation would need more than ~2e5 latent x observed assignments (dense bidirected parts on 6-7 nodes) are checked by correspondence and for exceptions only, not by evaluation",
 ]
 EXHAUSTIVE = {"quick": False, "thorough": False}
-LEANCHECK_MODULES = ["Y0.Model.Tian", "Y0.Model.TianDsl", "Y0.Lemmas.QFactor", "Y0.Lemmas.TianIdentify", "Y0.Lemmas.TianTotal", "Y0.Lemmas.TianCallers", "Y0.Props.C17"]
+LEANCHECK_MODULES = ["Y0.Model.Tian", "Y0.Model.TianDsl", "Y0.Lemmas.QFactor", "Y0.Lemmas.TianIdentify", "Y0.Lemmas.TianTotal", "Y0.Lemmas.TianCallers", "Y0.Lemmas.TianSemSound", "Y0.Lemmas.TianSemSep", "Y0.Props.C17"]
 
 OPS = ["identify", "c_factor", "lemma1", "lemma4", "low_index", "ancestral"]
 
@@ -727,6 +728,59 @@ def _gen_semantic_probs(rng, tier, n_graphs):
     return out
 
 
+def _gen_starred(rng, tier, n_graphs):
+    """Correspondence-only stream for the inputs that tian_sound_in / tian_sound_semantic admit beyond ProbShape:
+    single-world probabilities P_w(T u E | Z) whose subscripts / parents / extra children are starred (+X) or are not
+    nodes of the graph (names 90-92), occasionally with a starred member of T (outside every shape).  The exact
+    evaluator does not read starred values, so these cases compare the real code with the Lean model only."""
+    out = []
+    made = 0
+    while made < n_graphs:
+        sg = _structured_graph(rng, rng.choice([0, 1, 1, 2]), rng.choice([1, 2]), rng.choice([0, 1]))
+        if sg is None:
+            continue
+        g, T, _, _, _ = sg
+        V = G.all_nodes(g)
+        di = [tuple(e) for e in g["di"]]
+        bi = [tuple(e) for e in g["bi"]]
+        made += 1
+        base = {"g": g, "scm_seed": 0, "evaluate": False}
+        rest = [v for v in V if v not in T]
+        subs = [sorted(c) for c in _subsets_single_district(rng, bi, T, 6)]
+        rec = [c for c in subs if len(identify_trace(di, bi, c, T)[0]) >= 1]
+        Cs = (rec[:2] + [c for c in subs if c not in rec][:1]) or subs[:1]
+        for _ in range(3):
+            role = [rng.choice("wz-") for _ in rest]
+            w = [v for v, r in zip(rest, role) if r == "w"] + ([90] if rng.random() < 0.4 else [])
+            Z = [v for v, r in zip(rest, role) if r == "z"] + ([91] if rng.random() < 0.5 else [])
+            starw = {v for v in w if rng.random() < 0.5}
+            starz = {v for v in Z if rng.random() < 0.5}
+            ivs = sorted(([v, "p" if v in starw else "m"] for v in set(w)), key=lambda p: (p[0], p[1] == "p"))
+
+            def var(i, star, ivs=ivs):
+                return ["v", i, star, "0", ivs]
+
+            pa = [var(v, "p" if v in starz else rng.choice(["n", "n", "m"])) for v in Z]
+            ch = [var(t, rng.choice(["n", "n", "n", "m"])) for t in sorted(T)]
+            ch += [var(v, "p" if v in starz else "n") for v in Z if rng.random() < 0.25]
+            if rng.random() < 0.3:
+                ch.append(var(92, rng.choice(["n", "p"])))
+            kind = "starP"
+            if rng.random() < 0.1:
+                k = rng.randrange(len(ch))
+                ch[k] = var(ch[k][1], "p")
+                kind = "starP_T"
+            rng.shuffle(ch)
+            q = ["P", ch, pa] if rng.random() < 0.75 else ["PP", pv(1005), ch, pa]
+            for Cs1 in Cs:
+                topo = S.random_linear_extension(rng, V, di)
+                out.append(dict(base, op="identify", C=Cs1, T=sorted(T), topo=topo, q=q, qkind=kind))
+            if rng.random() < 0.3:
+                topo = S.random_linear_extension(rng, V, di)
+                out.append(dict(base, op="c_factor", district=sorted(T), H=sorted(T), topo=topo, q=q, qkind=kind))
+    return out
+
+
 def _gen_malformed(rng, n):
     out = []
     exprs = ["one", "zero", ["Q", [pv(0)], [pv(1)]], eP([0, 1]), eP([0], [1], pop=1001),
@@ -779,6 +833,7 @@ def cases(rng: random.Random, tier: str):
         out += _gen_semantic_probs(rng, tier, 40)
         out += _gen_valid(rng, tier, 110, 5)
         out += _gen_malformed(rng, 400)
+        out += _gen_starred(rng, tier, 25)
     else:
         out += _gen_recursion(rng, tier, [(0, 20), (1, 120), (2, 80), (3, 30), (4, 6)])
         out += _gen_cfactor(rng, tier, 200)
@@ -786,6 +841,7 @@ def cases(rng: random.Random, tier: str):
         out += _gen_valid(rng, tier, 1000, 5)
         out += _gen_valid(rng, tier, 300, 6)
         out += _gen_malformed(rng, 3000)
+        out += _gen_starred(rng, tier, 150)
     return out
 
 
@@ -1165,15 +1221,18 @@ MANIFEST = {
              "tied to the code on every run by differential correspondence on generated and corpus inputs, and an "
              "exact-rational SCM oracle (Q[C] as the distribution under do(V\\C)) evaluates every returned "
              "expression at every assignment; that oracle found the defect fixed in 010d659 (Lemma 1 dropped "
-             "intervention subscripts). One clause is narrower than the property: a bare Probability given as Q[T] must "
-             "have the shape P_w(T u E | Z), E redundant (hypothesis ProbShape); cfactor_output_shape and "
-             "tian_sound_ctftr_caller show that the one caller inside y0 (Algorithm 4 of ctf-TR: compute_c_factor "
-             "followed by IDENTIFY) always supplies it."),
+             "intervention subscripts). A bare Probability given as Q[T]: with the hypothesis 'denotes Q[T]' in one model "
+             "the theorems need its shape P_w(T u E | Z) (ProbShape, or the weaker ProbShapeIn of tian_sound_in that "
+             "admits starred subscripts / parents and non-node extras); tian_sound_semantic, cfactor_sound_semantic and "
+             "cfactor_lemma1_sound_semantic need NO syntactic hypothesis when 'denotes Q[T]' holds in every compatible "
+             "positive model - tian_semantic_shape derives the shape from that by separating coin models - so the "
+             "property's clause is proved as stated; cfactor_output_shape and tian_sound_ctftr_caller show that the one "
+             "caller inside y0 (Algorithm 4 of ctf-TR: compute_c_factor followed by IDENTIFY) always supplies ProbShape."),
     "note": ("Trusted: Lean kernel; axioms propext/Classical.choice/Quot.sound; the specifications Y0/Spec/{Prob,Sem,Scm,"
              "TianSpec}.lean (model class: discrete, positive, independent root latents); the hand-written model of "
              "tian_id.py and of the dsl.py constructors it uses, tied to the code by sampling; networkx/sorted/frozenset "
-             "behaviour is modelled. Not claimed: completeness of FAIL, starred (counterfactual-value) variables inside "
-             "the given probability, models with latents that have parents."),
+             "behaviour is modelled. Not claimed: completeness of FAIL, models with latents that have parents; "
+             "conjunctions across worlds have probability 0 in the single-world environment the theorems are about."),
     "technique": ("Lean 4 theorems (induction on the IDENTIFY recursion; finite-sum algebra; Tian-Pearl Lemmas 1, 3, 4 "
                   "mechanised) + differential correspondence with the real tian_id.py + exact-rational SCM oracle"),
 }
